@@ -245,6 +245,30 @@ func c08Shapes(which string) [][][]Call {
 		for _, m := range multisets(len(two), 2) {
 			out = append(out, [][]Call{two[m[0]], two[m[1]]})
 		}
+	case "3+1":
+		for _, c1 := range c08Calls {
+			for _, c2 := range c08Calls {
+				for _, c3 := range c08Calls {
+					for _, p1 := range one {
+						out = append(out, [][]Call{{c1, c2, c3}, p1})
+					}
+				}
+			}
+		}
+	case "2+1+1":
+		for _, p2 := range two {
+			for _, m := range multisets(len(one), 2) {
+				out = append(out, [][]Call{p2, one[m[0]], one[m[1]]})
+			}
+		}
+	case "batch+1":
+		for _, p1 := range one {
+			out = append(out, [][]Call{{{K: "batch", Key: "a"}}, p1})
+		}
+	case "batch+2":
+		for _, p2 := range two {
+			out = append(out, [][]Call{{{K: "batch", Key: "a"}}, p2})
+		}
 	case "merge+1":
 		for _, p1 := range one {
 			out = append(out, [][]Call{{{K: "merge"}}, p1})
@@ -312,22 +336,29 @@ func c08Tasks(tier string) []Task {
 	if tier == "quick" {
 		levels = []c08Level{
 			{"2x1", -1, c08Inits, []Cfg{hm, bt, sl, hm1}},
-			{"2+1", 3, c08Inits, []Cfg{hm, bt}},
-			{"3x1", 3, c08Inits, []Cfg{hm, bt}},
-			{"2x2", 2, c08Inits, []Cfg{hm}},
-			{"merge+1", 3, c08MergeInits, []Cfg{hm, bt, sl}},
-			{"merge+2", 2, c08MergeInits, []Cfg{hm}},
+			{"2+1", -1, c08Inits, []Cfg{hm, bt}},
+			{"3x1", -1, c08Inits, []Cfg{hm, bt}},
+			{"2x2", 3, c08Inits, []Cfg{hm, bt}},
+			{"batch+1", -1, c08Inits, []Cfg{hm, bt}},
+			{"batch+2", 3, c08Inits, []Cfg{hm}},
+			{"2+1+1", 2, c08Inits, []Cfg{hm}},
+			{"merge+1", -1, c08MergeInits, []Cfg{hm, bt, sl}},
+			{"merge+2", 3, c08MergeInits, []Cfg{hm, bt}},
 			{"merge+1+1", 2, c08MergeInits, []Cfg{hm}},
 		}
 	} else {
 		levels = []c08Level{
 			{"2x1", -1, c08Inits, []Cfg{hm, bt, sl, hm1}},
-			{"2+1", -1, c08Inits, []Cfg{hm, bt, sl}},
+			{"2+1", -1, c08Inits, []Cfg{hm, bt, sl, hm1}},
 			{"3x1", -1, c08Inits, []Cfg{hm, bt, sl, hm1}},
-			{"2x2", 4, c08Inits, []Cfg{hm, bt, sl}},
+			{"2x2", -1, c08Inits, []Cfg{hm, bt, sl}},
+			{"3+1", 4, c08Inits, []Cfg{hm, bt}},
+			{"2+1+1", 4, c08Inits, []Cfg{hm, bt}},
+			{"batch+1", -1, c08Inits, []Cfg{hm, bt, sl}},
+			{"batch+2", -1, c08Inits, []Cfg{hm, bt}},
 			{"merge+1", -1, c08MergeInits, []Cfg{hm, bt, sl}},
-			{"merge+2", 4, c08MergeInits, []Cfg{hm, bt, sl}},
-			{"merge+1+1", 3, c08MergeInits, []Cfg{hm, bt}},
+			{"merge+2", -1, c08MergeInits, []Cfg{hm, bt, sl}},
+			{"merge+1+1", 4, c08MergeInits, []Cfg{hm, bt}},
 		}
 	}
 	var tasks []Task
@@ -351,7 +382,10 @@ func c08Tasks(tier string) []Task {
 	return tasks
 }
 
-func c08RunScenario(sc Scenario, pb int, res *TaskResult) {
+func c08RunScenario(sc Scenario, pb int, res *TaskResult) { schedLinRun("C08", sc, pb, res) }
+
+// schedLinRun explores one scenario and applies the linearizability / restart-agreement oracles, reporting under prop.
+func schedLinRun(prop string, sc Scenario, pb int, res *TaskResult) {
 	initial := modelAfter(sc.Init, sc.Cfg)
 	outcomes := map[uint64]bool{}
 	n, complete := exploreSchedules(func(prefix []int8) *ExecResult {
@@ -379,9 +413,9 @@ func c08RunScenario(sc Scenario, pb int, res *TaskResult) {
 				res.Err = fmt.Sprintf("non-reproducible %s in %s schedule %v", c, sc, ex.Sched.Choices)
 				return false
 			}
-			res.Violations = append(res.Violations, Violation{Prop: "C08", Clause: c, Sig: c + ":" + shapeOf(sc),
+			res.Violations = append(res.Violations, Violation{Prop: prop, Clause: c, Sig: c + ":" + shapeOf(sc),
 				Detail: fmt.Sprintf("scenario %s\nschedule: %s\n%s", sc, describeSchedule(ex), d),
-				Replay: mustJSON(schedReplay{Engine: "sched", Prop: "C08", Scenario: sc, Schedule: append([]int8{}, ex.Sched.Choices...), Text: sc.String()})})
+				Replay: mustJSON(schedReplay{Engine: "sched", Prop: prop, Scenario: sc, Schedule: append([]int8{}, ex.Sched.Choices...), Text: sc.String()})})
 			return false
 		}
 		// outcome = rendered history + final mapping
@@ -440,9 +474,9 @@ func init() {
 		Tasks: c08Tasks,
 		Bounds: func(tier string) map[string]any {
 			if tier == "quick" {
-				return map[string]any{"shapes": "2x1 unbounded; 2+1 3x1 merge+1 at PB<=3; 2x2 merge+2 merge+1+1 at PB<=2", "index": "hashmap (16 and 1 shards), btree, skiplist"}
+				return map[string]any{"shapes": "2x1 2+1 3x1 batch+1 merge+1 unbounded; 2x2 batch+2 merge+2 at PB<=3; 2+1+1 merge+1+1 at PB<=2", "index": "hashmap (16 and 1 shards), btree, skiplist"}
 			}
-			return map[string]any{"shapes": "2x1 2+1 3x1 merge+1 unbounded; 2x2 merge+2 at PB<=4; merge+1+1 at PB<=3", "index": "hashmap, btree, skiplist, 1 and 16 shards"}
+			return map[string]any{"shapes": "2x1 2+1 3x1 2x2 batch+1 batch+2 merge+1 merge+2 unbounded; 3+1 2+1+1 merge+1+1 at PB<=4", "index": "hashmap, btree, skiplist, 1 and 16 shards"}
 		},
 		Replay: func(raw json.RawMessage) {
 			var r schedReplay
